@@ -480,6 +480,48 @@ def v11(ctx, rid):
         raise core.AnchorLost('serialized_size functions in src/record/record.rs: %d' % n)
 
 
+def v12(ctx, rid):
+    """a buffer that was used before and is handed to a positional exact read again has been given the length of what is to be
+    read on every path: read_exact_at fills the whole buffer, so a buffer that keeps a larger previous length reads bytes of the
+    next record too and the data checksum of an intact record no longer matches (intact blobs fail the start-up validation)"""
+    prog = ctx.prog
+    n = 0
+    for f in prog.fns.values():
+        if not (f.file.startswith('src/blob/') or f.file.startswith('src/tools/')):
+            continue
+        for c in f.calls:
+            if c.bb not in f.reachable() or c.name not in ('read_exact_at', 'read_exact') or len(c.args) < 2:
+                continue
+            l = op_local(c.args[1])
+            if l is None:
+                continue
+            root = core.access_root(f, l)
+            sizers = [r for r in f.calls if r.bb in f.reachable() and r.name in ('resize', 'truncate', 'set_len', 'resize_with') and r.args
+                      and op_local(r.args[0]) is not None and core.access_root(f, op_local(r.args[0])) == root and r.bb != c.bb]
+            earlier = [r for r in sizers if c.bb in f.reach_from([r.bb])]
+            if not earlier:
+                continue    # a fresh buffer (allocated with its length): nothing to re-size
+            n += 1
+            key = 'reused-buffer-resized|%s|%s' % (prog.fns[f.id].root, c.name)
+            dom = [r for r in earlier if r.name in ('resize', 'resize_with') and f.dominates(r.bb, c.bb)]
+            exact = []
+            for r in earlier:
+                if r in dom or r.name not in ('resize', 'resize_with'):
+                    continue
+                # `if buf.len() != n { buf.resize(n) }` is the same thing
+                for sw in core.deciding_switches(f, r.bb):
+                    kind, og = core.switch_kind(f, sw)
+                    if kind == 'value' and og and all(o.kind == 'binop' and o.data.get('op') in ('Ne', 'Eq') for o in og) and f.dominates(sw, c.bb):
+                        exact.append(r)
+            if dom or exact:
+                ctx.ok(rid, key, c.where(), 'the buffer is resized on every path before the read')
+            else:
+                ctx.bad(rid, key, c.where(), 'the reused buffer is not resized on every path before `%s` fills it: where it keeps a larger '
+                        'previous length the read runs into the following bytes and the checksum of an intact record fails' % c.name)
+    if n < 1:
+        raise core.AnchorLost('reads into a reused buffer in src/blob, src/tools: %d' % n)
+
+
 RULES = [
     Rule('C05.V1', 'no record data leaves a reading function without an ok data-checksum audit', v1, 4),
     Rule('C05.V2', 'a header deserialised from file bytes is accepted only after magic + header-CRC validation', v2, 3),
@@ -492,5 +534,6 @@ RULES = [
     Rule('C05.V9', 'the configured data-validation flag reaches every blob config unchanged (builder forwards it, no constructor resets it)', v9, 3),
     Rule('C05.V10', 'an error of Entry::load in a storage read path never ends in an Ok answer', v10, 1),
     Rule('C05.V11', 'record size fields are computed by the serializer, not by hand', v11, 2),
+    Rule('C05.V12', 'a reused buffer is resized to the length to be read on every path before an exact positional read fills it', v12, 1),
     Rule('C05.V5', 'the header CRC written at reservation time is computed after the offset was patched', v5, 1),
 ]
